@@ -665,7 +665,8 @@ func c11R5(c *Ctx, r *Report) {
 			}
 			return false
 		}
-		if waitShape(c, r, f, isChan, create.Pos(), 0) {
+		ff := f
+		if waitShape(c, r, f, isChan, create.Pos(), 0, func(v ssa.Value) bool { return deadlineCtxIn(c, ff, v, 0) }) {
 			waiters = append(waiters, f)
 		}
 	}
@@ -708,7 +709,69 @@ func c11R5(c *Ctx, r *Report) {
 
 // waitShape checks that fn waits for the outcome on the channel designated by isChan before returning success: either in
 // a select of its own, or by handing the channel to a module-local helper that does. Returns whether a wait was found.
-func waitShape(c *Ctx, r *Report, fn *ssa.Function, isChan func(ssa.Value) bool, at token.Pos, depth int) bool {
+// deadlineCtx: v is (derived only from) the context returned by context.WithTimeout / WithDeadline in this function.
+func deadlineCtx(v ssa.Value) bool {
+	os := origins(v, originOpt{})
+	if len(os) == 0 {
+		return false
+	}
+	for _, o := range os {
+		ex, ok := o.(*ssa.Extract)
+		if !ok || ex.Index != 0 {
+			return false
+		}
+		cl, ok := ex.Tuple.(*ssa.Call)
+		if !ok {
+			return false
+		}
+		if id := callID(&cl.Call); id.Pkg != "context" || (id.Name != "WithTimeout" && id.Name != "WithDeadline") {
+			return false
+		}
+	}
+	return true
+}
+
+// deadlineCtxIn: like deadlineCtx, but a context parameter of fn counts when every static caller passes a deadline context.
+func deadlineCtxIn(c *Ctx, fn *ssa.Function, v ssa.Value, depth int) bool {
+	os := origins(v, originOpt{})
+	if len(os) == 0 || depth > 3 {
+		return false
+	}
+	for _, o := range os {
+		p, isP := o.(*ssa.Parameter)
+		if !isP {
+			if !deadlineCtx(o) {
+				return false
+			}
+			continue
+		}
+		pi := -1
+		for k, q := range fn.Params {
+			if q == p {
+				pi = k
+			}
+		}
+		n, all := 0, true
+		for _, g := range prodFuncs(c, "storage", "storage/raft", "services", "cluster", "") {
+			eachInstr(g, func(i ssa.Instruction) {
+				cc := asCall(i)
+				if cc == nil || cc.StaticCallee() != fn || pi < 0 || pi >= len(cc.Args) {
+					return
+				}
+				n++
+				if !deadlineCtxIn(c, g, cc.Args[pi], depth+1) {
+					all = false
+				}
+			})
+		}
+		if n == 0 || !all {
+			return false
+		}
+	}
+	return true
+}
+
+func waitShape(c *Ctx, r *Report, fn *ssa.Function, isChan func(ssa.Value) bool, at token.Pos, depth int, bounded func(ssa.Value) bool) bool {
 	name := fnName(fn)
 	var sel *ssa.Select
 	arm := -1
@@ -749,7 +812,31 @@ func waitShape(c *Ctx, r *Report, fn *ssa.Function, isChan func(ssa.Value) bool,
 				}
 			}
 			return false
-		}, g.Pos(), depth+1) {
+		}, g.Pos(), depth+1, func(v ssa.Value) bool {
+			os := origins(v, originOpt{})
+			if len(os) == 0 {
+				return false
+			}
+			for _, o := range os {
+				p, isP := o.(*ssa.Parameter)
+				if !isP {
+					if !deadlineCtx(o) {
+						return false
+					}
+					continue
+				}
+				okP := false
+				for k, q := range g.Params {
+					if q == p && k < len(helper.Call.Args) && bounded(helper.Call.Args[k]) {
+						okP = true
+					}
+				}
+				if !okP {
+					return false
+				}
+			}
+			return true
+		}) {
 			return false
 		}
 		// success in fn only when the helper reported success
@@ -768,6 +855,27 @@ func waitShape(c *Ctx, r *Report, fn *ssa.Function, isChan func(ssa.Value) bool,
 			r.OK("C11.R5", name, "success-return#via-helper", c.Pos(helper.Pos()), "the result of the waiting helper "+g.Name()+" is what this function reports")
 		}
 		return true
+	}
+	// the wait ends: an arm of the same select receives from Done() of a context that carries the proposal deadline
+	{
+		nDone, okDone := 0, false
+		for _, st := range sel.States {
+			dc, isC := st.Chan.(*ssa.Call)
+			if st.Dir != types.RecvOnly || !isC || callID(&dc.Call).Name != "Done" {
+				continue
+			}
+			nDone++
+			var cv ssa.Value
+			if dc.Call.IsInvoke() {
+				cv = dc.Call.Value
+			} else if len(dc.Call.Args) > 0 {
+				cv = dc.Call.Args[0]
+			}
+			if cv != nil && bounded(cv) {
+				okDone = true
+			}
+		}
+		r.Check(okDone, "C11.R5", name, "wait-is-bounded", c.Pos(sel.Pos()), fmt.Sprintf("the wait for the apply outcome also ends on Done() of the context that carries the proposal deadline (%d Done arm(s)): a proposal that is accepted but not applied in time returns an error instead of blocking the caller for as long as its own context lives", nDone))
 	}
 	var armIf *ssa.If
 	for _, ifi := range allIfs(fn) {
@@ -1006,7 +1114,7 @@ func sendCounts(f *ssa.Function, match func(*ssa.Send) bool) (int, int) {
 func checkC09(c *Ctx, r *Report, tier string) {
 	r.Rule("C09.R1", "every partition exactly once: the plan function appends each partition's id to exactly one bucket on every path of its loop, the bucket key being an element of that partition's own node list", 1)
 	r.Rule("C09.R2", "one worker per bucket, one message per worker: the spawn loop ranges over the plan, the collector loop is bounded by the size of the same collection, each worker sends exactly one message on every path", 4)
-	r.Rule("C09.R3", "a closed channel cannot masquerade as a message: no select receives, without the comma-ok form, from two or more channels that the same function (or a goroutine it spawns) closes", 2)
+	r.Rule("C09.R3", "a closed channel cannot masquerade as a message: a counted select with two or more message arms receives from no channel that the same function (or a goroutine it spawns) closes", 2)
 	r.Rule("C09.R4", "the success return is sorted and truncated to min(k, len) (as C01.R4) and every received partial result is appended to the list that is returned", 4)
 	r.Rule("C09.R5", "errors are not dropped: nil-error rule over the search path; an error message from a worker fails the call", 3)
 	for _, k := range []string{"spawn", "collector-bound", "one-message-per-worker"} {
@@ -1190,9 +1298,13 @@ func checkC09(c *Ctx, r *Report, tier string) {
 			})
 		}
 		nClosedRecv := 0
+		nMsgArms := 0
 		for _, st := range sel.States {
 			if st.Dir != types.RecvOnly {
 				continue
+			}
+			if dc, ok := st.Chan.(*ssa.Call); !ok || callID(&dc.Call).Name != "Done" {
+				nMsgArms++
 			}
 			for _, o := range origins(st.Chan, originOpt{}) {
 				if closed[o.Name()] {
@@ -1207,10 +1319,10 @@ func checkC09(c *Ctx, r *Report, tier string) {
 				}
 			}
 		}
-		if nClosedRecv >= 2 {
-			r.Bad("C09.R3", fn, "closed-channel-receive", c.Pos(sel.Pos()), fmt.Sprintf("the counted select receives from %d channels that this function closes: once closed each is permanently ready, select picks at random, a zero value (nil error / nil list) can pre-empt a pending message — (nil, nil) or a partial list with success", nClosedRecv))
+		if nClosedRecv >= 1 && nMsgArms >= 2 {
+			r.Bad("C09.R3", fn, "closed-channel-receive", c.Pos(sel.Pos()), fmt.Sprintf("the counted select has %d message arms and %d of them receive(s) from a channel that this function closes: once closed it is permanently ready, select picks at random, so its zero value (nil list / nil error) can pre-empt a pending message on another arm — a partial list with success, or (nil, nil)", nMsgArms, nClosedRecv))
 		} else {
-			r.OK("C09.R3", fn, "closed-channel-receive", c.Pos(sel.Pos()), fmt.Sprintf("%d receive arm(s) on channels closed by this function (a single closable channel delivers its buffered messages first)", nClosedRecv))
+			r.OK("C09.R3", fn, "closed-channel-receive", c.Pos(sel.Pos()), fmt.Sprintf("%d message arm(s), %d on a channel closed by this function (a closable channel is only safe as the single message arm: buffered messages are delivered before the close is observed)", nMsgArms, nClosedRecv))
 		}
 		// R4: the slice returned is the one every result arm appends to
 		okApp := false
